@@ -77,7 +77,7 @@ SUObsOK(o, ev, c, key) ==
      /\ Len(o.fields) = Len(x.fields)
      /\ \A f \in DOMAIN x.fields : /\ o.fields[f][1] = x.fields[f][1]
                                    /\ o.fields[f][2] = NormApi(ev.su[key].fields[f][2])
-                                   /\ (x.fields[f][3] = Unk \/ o.fields[f][3] = x.fields[f][2])
+                                   /\ (x.fields[f][2] = Unk \/ o.fields[f][3] = x.fields[f][2])
                                    /\ o.fields[f][5] = x.fields[f][3]
      /\ o.size = x.size /\ o.align = x.align
 
@@ -117,7 +117,7 @@ Verdict(r) ==
       enClass(x) == IF IdealEnumerator(ev, c, x[1], x[2]) = "error" /\ o.k[enName(x)] = c.en[x[1]].vals[x[2]]
                     THEN unchecked ELSE ""
       \* ---- typedefs, functions, variables: present with the declared type
-      vTd == {n \in DOMAIN ev.td : o.td[n] # NormApi(ev.td[n])}
+      vTd == {n \in DOMAIN ev.td : ~DependsOnBroken(ev, c, fl, ev.td[n]) /\ o.td[n] # NormApi(ev.td[n])}
       fnFree(f) == ~DependsOnBroken(ev, c, fl, ev.fn[f])
       gvFree(g) == ~DependsOnBroken(ev, c, fl, ev.gv[g])
       vFn == {f \in DOMAIN ev.fn : fnFree(f) /\ o.fn[f] # NormApi(ev.fn[f])}
